@@ -182,6 +182,11 @@ pub struct Client {
 
 impl Client {
     pub fn start(state: HashMap<String, String>, configuration: liwe::model::config::Configuration) -> Client {
+        Client::start_named(state, configuration, None)
+    }
+
+    /// `client_name`: what the editor calls itself in `initialize` (the server treats "helix" specially)
+    pub fn start_named(state: HashMap<String, String>, configuration: liwe::model::config::Configuration, client_name: Option<String>) -> Client {
         let (server_conn, client_conn) = Connection::memory();
         let th = std::thread::Builder::new()
             .name("iwes-loop".into())
@@ -191,7 +196,7 @@ impl Client {
                     ServerParams {
                         state: Some(state),
                         sequential_ids: Some(true),
-                        client_name: None,
+                        client_name,
                         configuration,
                         base_path: BASE.to_string(),
                     },
